@@ -63,7 +63,10 @@ pub fn exercise(ctx: &mut Ctx, mp: &MPos, b: &Board) {
         n += 29;
         // make/undo every semilegal move; SAN and UCI text of every legal one
         let mut bb = b.clone();
-        for mv in all.iter() {
+        for (mi, mv) in all.iter().enumerate() {
+            if light && mi % 3 != 0 {
+                continue;
+            }
             let u = unsafe { moves::make_move_unchecked(&mut bb, *mv) };
             let attacked = bb.is_opponent_king_attacked();
             unsafe { moves::unmake_move_unchecked(&mut bb, *mv, u) };
@@ -82,7 +85,8 @@ pub fn exercise(ctx: &mut Ctx, mp: &MPos, b: &Board) {
             let pawn = cell(man(w, b'P'));
             let king = cell(man(w, b'K'));
             let (epf, ept, dbf, dbt, prf, prt, home) = if w { (4u8, 5u8, 1u8, 3u8, 6u8, 7u8, 0u8) } else { (3, 2, 6, 4, 1, 0, 7) };
-            for f in 0..8u8 {
+            let fpick = (n % 4) as u8;
+            for f in (0..8u8).filter(|f| !light || f % 4 == fpick) {
                 for df in [-1i8, 0, 1] {
                     let tf = f as i8 + df;
                     if !(0..8).contains(&tf) {
@@ -116,8 +120,8 @@ pub fn exercise(ctx: &mut Ctx, mp: &MPos, b: &Board) {
         // text-driven entry points compute squares from characters and then index tables with them
         {
             let mut t = String::with_capacity(6);
-            let pick = (n % 16) as u8;
-            for s in (0..64u8).filter(|s| !light || s % 16 == pick) {
+            let pick = (n % 32) as u8;
+            for s in (0..64u8).filter(|s| !light || s % 32 == pick) {
                 let name = sq_name(s);
                 let _ = Move::from_san(&name, b);
                 t.clear();
@@ -292,7 +296,7 @@ fn count_of(ctx: &mut Ctx, p: &MPos) -> Option<usize> {
 
 /// G8: simulated annealing over valid positions, maximising the semilegal move count.
 fn mobility_search(ctx: &mut Ctx, iters: u64) {
-    let seeds: Vec<MPos> = gen::fixed_positions().into_iter().filter(|p| p.sq.iter().filter(|&&c| kind(c) == b'Q').count() >= 5).collect();
+    let seeds: Vec<MPos> = if ctx.light() { Vec::new() } else { gen::fixed_positions().into_iter().filter(|p| p.sq.iter().filter(|&&c| kind(c) == b'Q').count() >= 5).collect() };
     let mut best_overall = 0usize;
     let mut best_pos = String::new();
     let restarts = (iters / 4000).max(1);
@@ -373,7 +377,7 @@ fn mobility_search(ctx: &mut Ctx, iters: u64) {
         }
         // the end point of each climb gets the full workload
         let fin = cur.normalized();
-        if fin.is_valid() {
+        if fin.is_valid() && !ctx.light() {
             crate::stream::offer(ctx, &fin, "mobility_search_result", &mut exercise);
         }
     }
@@ -393,13 +397,13 @@ pub fn run(ctx: &mut Ctx) {
     src.family_each = (n / 12).max(2);
     src.three_man = n / 10;
     stream::run(ctx, &src, &mut exercise);
-    // dense and queen-heavy positions
-    for _ in 0..(n / 2).max(1) {
+    // dense and queen-heavy positions (one per Miri shard: they take the interpreter a minute each)
+    for _ in 0..(if miri { 1 } else { (n / 2).max(1) }) {
         let p = gen::fam_mobility(&mut ctx.rng);
         stream::offer(ctx, &p, "fam_mobility", &mut exercise);
     }
     let iters = ctx.budget(12_000_000, 200_000_000);
-    mobility_search(ctx, if miri { iters.min(12) } else { iters });
+    mobility_search(ctx, if miri { iters.min(6) } else { iters });
     ctx.feature_max("list_capacity", crate::hooks::list_cap() as u64);
     let _ = to_move;
 }
